@@ -48,6 +48,11 @@ def dec_text(frac_or_str, style):
     if d == 0:
         return '0' if style != 2 else '0.0'
     sign, digits, exp = d.as_tuple()
+    if style == 3:          # spreadsheet / "%.3E" style: capital E, signed two-digit exponent
+        m, e = f"{d.normalize():e}".replace('E', 'e').split('e')
+        return f"{m}E{'-' if int(e) < 0 else '+'}{abs(int(e)):02d}"
+    if style == 4:          # explicit plus sign
+        return ('+' if sign == 0 else '') + dec_text(frac_or_str, 0)
     # normalised scientific
     if style == 1:
         s = f"{d.normalize():e}"
